@@ -1,7 +1,8 @@
 /-
-`rootWeight` of the loaded store (value of the LAST STORE NODE) versus `evalC` (value of the LAST LINE):
-equal when the last line is an `A`/`O` line; for a one-line circuit `L l` the root weight is the POSITIVE weight of
-the atom whatever the sign of `l`. Core only.
+`rootWeight` of the loaded store (value of the LAST STORE NODE) equals `evalC` (value of the LAST LINE): the last
+line is an `A`/`O` line and its node is the last one, or it is a literal and `_load_nnf` appended the explicit root
+`conj [key of the last line]` (before that repair the root weight of `L -x` was the POSITIVE weight of the atom).
+Core only.
 -/
 import ProbLogProofs.Lemmas.DDNNFBridgeMain
 namespace ProbLogProofs.DDNNF
@@ -11,7 +12,7 @@ theorem getLast?_of_get_len {α} {l : List α} {x : α} (_hpos : 1 ≤ l.length)
     l.getLast? = some x := by
   rw [List.getLast?_eq_getElem?]; exact h
 
-theorem rootWeight_eq_evalC {c : Circuit} {ld : Loaded} (h : Rep c ld) (hf : Forward c) (hz : LitsNonzero c)
+theorem rootWeight_eq_evalC_compound {c : Circuit} {ld : Loaded} (h : Rep c ld) (hf : Forward c) (hz : LitsNonzero c)
     (ws : List (Nat × (Rat × Rat))) (nd : NNode) (hlast : c.getLast? = some nd) (hcomp : isCompound nd = true) :
     rootWeight ld.store ws = evalC ratSR (circW ld.store (wfun ws)) c := by
   have hne : c ≠ [] := by intro e; subst e; simp at hlast
@@ -58,34 +59,82 @@ theorem rootWeight_eq_evalC {c : Circuit} {ld : Loaded} (h : Rep c ld) (hf : For
       unfold rootWeight
       rw [getLast?_of_get_len hm1 hn]
 
-/-- one-line circuit `L l`: the loaded store is the single atom node 1 and `rootWeight` is its POSITIVE weight -/
-theorem rootWeight_single_lit (cnf : CNF) (ns : List (Label × Name × Key)) (l : Int) (hn : litNormal cnf l = true)
-    (ws : List (Nat × (Rat × Rat))) :
-    atomOf (loadNnf [.lit l] cnf ns).store l.natAbs = 1 ∧
-      rootWeight (loadNnf [.lit l] cnf ns).store ws = (wfun ws 1).1 := by
+theorem rootWeight_eq_evalC_lit {c : Circuit} {ld : Loaded} (h : Rep c ld) (hroot : RootOK c ld) (hf : Forward c)
+    (hz : LitsNonzero c) (ws : List (Nat × (Rat × Rat))) (l : Int) (hlast : c.getLast? = some (NNode.lit l)) :
+    rootWeight ld.store ws = evalC ratSR (circW ld.store (wfun ws)) c := by
+  have hne : c ≠ [] := by intro e; subst e; simp at hlast
+  have hpos : 0 < c.length := List.length_pos_iff.mpr hne
+  have hj : c.length - 1 < c.length := by omega
+  have hline := nodeWeights_eq_evalLines h hf hz (wfun ws) (c.length - 1) hj
+  have hev : evalC ratSR (circW ld.store (wfun ws)) c =
+      (evalLines ratSR (circW ld.store (wfun ws)) c).getD (c.length - 1) 0 := by
+    unfold evalC
+    rw [evalLines_eq, linesOf_getLast? (0 : Rat) _ c hne]
+  rw [hev, ← hline]
+  -- the key of the last line
+  have hkey : ld.line2node.getLast?.getD none = lineKey ld (c.length - 1) := by
+    unfold lineKey
+    rw [List.getLast?_eq_getElem?, h.len, List.getD_eq_getElem?_getD]
+  have hsh := hroot l hlast
+  rw [hkey, List.getLast?_eq_getElem?, shapes_length] at hsh
+  obtain ⟨n, hn⟩ := shapes_get_conj hsh
+  have hlen1 : 1 ≤ ld.store.nodes.length := by
+    have := getElem?_lt_of_some hn; omega
+  have hlt : ld.store.nodes.length - 1 < ld.store.nodes.length := by omega
+  have hnode : ld.store.nodes[ld.store.nodes.length - 1] = .conj [lineKey ld (c.length - 1)] n := by
+    rw [List.getElem?_eq_getElem hlt] at hn; exact Option.some.inj hn
+  have hNW : (nodeWeights ld.store (wfun ws)).length = ld.store.nodes.length := by
+    rw [nodeWeights_eq, tbl_length]
+  have hg := tbl_get (nodeW ld.store (wfun ws)) ld.store.nodes (ld.store.nodes.length - 1) hlt
+  -- the last line is a literal: its key is an atom literal, whose value does not depend on the table
+  rcases h.key_cases hz (c.length - 1) hj with ⟨l', i, a, g, e, n', _, _, hi, _, hk, hatom⟩ |
+      ⟨m, hcomp, _, _, _, _⟩
+  · have hne0 : (if l' < 0 then -(i : Int) else (i : Int)) ≠ 0 := by split <;> omega
+    have habs : (if l' < 0 then -(i : Int) else (i : Int)).natAbs = i := by split <;> omega
+    unfold rootWeight
+    rw [getLast?_of_get_len hlen1 hn]
+    simp only
+    rw [List.getLast?_eq_getElem?, hNW, nodeWeights_eq, hg, hnode]
+    simp only [Option.getD_some, nodeW, List.foldl_cons, List.foldl_nil, ← nodeWeights_eq]
+    rw [hk, childW_atom _ _ _ _ hne0 (by rw [habs]; exact hatom), childW_atom _ _ _ _ hne0 (by rw [habs]; exact hatom)]
+    exact Rat.one_mul _
+  · have hcj : c[c.length - 1]? = some (NNode.lit l) := by rw [← List.getLast?_eq_getElem?]; exact hlast
+    rw [List.getElem?_eq_getElem hj] at hcj
+    rw [Option.some.inj hcj] at hcomp
+    simp [isCompound] at hcomp
+
+/-- **root weight = circuit value**, every non-empty circuit -/
+theorem rootWeight_eq_evalC {c : Circuit} {ld : Loaded} (h : Rep c ld) (hroot : RootOK c ld) (hf : Forward c)
+    (hz : LitsNonzero c) (ws : List (Nat × (Rat × Rat))) (hne : c ≠ []) :
+    rootWeight ld.store ws = evalC ratSR (circW ld.store (wfun ws)) c := by
+  cases hl : c.getLast? with
+  | none => rw [List.getLast?_eq_none_iff] at hl; exact absurd hl hne
+  | some nd =>
+    cases nd with
+    | lit l => exact rootWeight_eq_evalC_lit h hroot hf hz ws l hl
+    | and cs => exact rootWeight_eq_evalC_compound h hf hz ws _ hl rfl
+    | or d cs => exact rootWeight_eq_evalC_compound h hf hz ws _ hl rfl
+
+/-- the empty circuit loads to the empty store: root weight `one`, as `evalC` -/
+theorem loadNnf_nil_nodes (cnf : CNF) (ns : List (Label × Name × Key)) : (loadNnf [] cnf ns).store.nodes = [] := by
   rw [loadNnf_eq]
-  obtain ⟨h1, h2, _, _⟩ := loadFinish_fields cnf ns ([NNode.lit l].foldl (loadStep cnf ns) (⟨loadInit, []⟩, []))
-  simp only [List.foldl_cons, List.foldl_nil] at h1 h2 ⊢
-  obtain ⟨S2, heq, hsh2, hidx2, _⟩ := loadStep_lit cnf ns ⟨loadInit, []⟩ [] l hn
-  rw [heq] at h1 h2
-  simp only at h1 h2
-  obtain ⟨i, _, hlk, _, hcase⟩ := addAtom_normal loadInit (.user (l.natAbs : Int))
-    ((lookup cnf.weights l.natAbs).getD .neutral)
-  generalize (loadFinish cnf ns (loadStep cnf ns (⟨loadInit, []⟩, []) (.lit l))).store = S at h1 h2 ⊢
-  rcases hcase with ⟨hfound, _⟩ | ⟨_, hi, hnodes, _⟩
-  · simp [loadInit, lookup] at hfound
-  · have hi1 : i = 1 := by simpa [loadInit] using hi
-    subst hi1
-    have hshapes : shapes S = [.atom (.user (l.natAbs : Int)) none false none] := by
-      rw [h1, hsh2]; unfold shapes; rw [hnodes]; rfl
-    refine ⟨?_, ?_⟩
-    · unfold atomOf; rw [h2, hidx2, hlk]; rfl
-    · have hlen : S.nodes.length = 1 := by rw [← shapes_length, hshapes]; rfl
-      have h0 : (shapes S)[0]? = some (.atom (.user (l.natAbs : Int)) none false none) := by rw [hshapes]; rfl
-      obtain ⟨n, hn0⟩ := shapes_get_atom h0
-      have hlast : S.nodes.getLast? = some (.atom (.user (l.natAbs : Int)) none false n) := by
-        rw [List.getLast?_eq_getElem?, hlen]; exact hn0
-      unfold rootWeight
-      rw [hlast, hlen]
+  obtain ⟨h1, _⟩ := loadFinish_fields cnf ns
+    (loadRoot [] (([] : Circuit).foldl (loadStep cnf ns) (⟨loadInit, []⟩, [])).1,
+      (([] : Circuit).foldl (loadStep cnf ns) (⟨loadInit, []⟩, [])).2)
+  have : shapes (loadRoot [] (([] : Circuit).foldl (loadStep cnf ns) (⟨loadInit, []⟩, [])).1).store = [] := rfl
+  rw [this] at h1
+  unfold shapes at h1
+  exact List.map_eq_nil_iff.mp h1
+
+/-- **root weight of the loaded store = `evalC`**, every validated circuit whose literal lines create atoms -/
+theorem loadNnf_rootWeight (c : Circuit) (cnf : CNF) (ns : List (Label × Name × Key)) (hv : Valid c)
+    (hn : litsNormal cnf c = true) (ws : List (Nat × (Rat × Rat))) :
+    rootWeight (loadNnf c cnf ns).store ws = evalC ratSR (circW (loadNnf c cnf ns).store (wfun ws)) c := by
+  by_cases hne : c = []
+  · subst hne
+    unfold rootWeight
+    rw [loadNnf_nil_nodes]
+    rfl
+  · exact rootWeight_eq_evalC (loadNnf_rep c cnf ns hn) (loadNnf_rootOK c cnf ns hn) hv.forward hv.litsNonzero ws hne
 
 end ProbLogProofs.DDNNF
